@@ -20,6 +20,7 @@ pub struct Cfg {
     pub c14: bool,
     pub burst: bool,
     pub reentrant: bool,
+    pub passive: bool,
     pub nsinks: usize,
 }
 
